@@ -29,6 +29,8 @@ func (c19Observer) Start() error             { return nil }
 type c19TLS struct{ ks *keyStore }
 
 func (c c19TLS) OnChanged(l zerolog.Logger) { c.ks.OnChanged(l) }
+func (c c19TLS) Load() error                { return c.ks.load() }
+func (c c19TLS) ClearPath()                 { c.ks.path = "" }
 
 func (c c19TLS) State() c19gen.State {
 	c.ks.mut.RLock()
